@@ -1,6 +1,7 @@
 (* C17 — Reading never writes.  Property theorems only. *)
 From Coq Require Import List Bool.
 From SC Require Import Model.Val Model.Ops Model.Class Model.Tree Model.Machine Proofs.MachineReads.
+From SC Require Import Model.Buffer Proofs.TreeDefs Proofs.BufferDefs Proofs.BufferInv.
 Import ListNotations.
 
 (* every read operation (item access, get, len, iteration, membership, comparisons, (),
@@ -18,3 +19,19 @@ Theorem C17_read_sequences_pure : forall T ops s,
   /\ m_writes (fst (fold_left (fun st op => (fst (step T (fst st) op), tt)) ops (s, tt))) = m_writes s.
 Proof. exact run_reads_pure. Qed.
 Print Assumptions C17_read_sequences_pure.
+
+(* buffered collections: any sequence of reads and of context entries / exits (both kinds, any nesting,
+   capacity changes and the forced flushes they cause included), both strategies: no file changes content,
+   stamp or existence, nothing is written — provided nothing in the buffer was modified to begin with *)
+Theorem C17_readonly_session : forall strat blen ops s,
+  forallb bop_is_readonly ops = true -> clean_entries strat s -> NoDup (map fst (b_buffer s)) ->
+  b_files (brun strat blen ops s) = b_files s /\ b_writes (brun strat blen ops s) = b_writes s.
+Proof. exact readonly_run_pure. Qed.
+Print Assumptions C17_readonly_session.
+
+Theorem C17_readonly_step : forall strat blen s op,
+  bop_is_readonly op = true -> clean_entries strat s -> NoDup (map fst (b_buffer s)) ->
+  let s' := fst (bstep_fn strat blen s op) in
+  b_files s' = b_files s /\ b_writes s' = b_writes s /\ clean_entries strat s' /\ NoDup (map fst (b_buffer s')).
+Proof. exact readonly_step_pure. Qed.
+Print Assumptions C17_readonly_step.
